@@ -73,7 +73,7 @@ package schemas
 // keyword's value if there was one, else the legacy keyword's.
 //@ func (*Type).UnmarshalJSON
 //@   props C13
-//@   success-path-calls json.Unmarshal 1|3
+//@   success-path-calls json.Unmarshal 1|3+
 //@   option json-havoc Definitions DependentSchemas Dependencies
 //@   option noframe
 //@   shape value = new
@@ -84,7 +84,7 @@ package schemas
 
 //@ func (*Schema).UnmarshalJSON
 //@   props C13 C20
-//@   success-path-calls json.Unmarshal 2
+//@   success-path-calls json.Unmarshal 2+
 //@   option json-havoc ID LegacyID Definitions
 //@   option noframe
 //@   shape s = new
